@@ -1072,7 +1072,8 @@ func scTransfer(d *Driver) {
 	d.pipeline(l.ID)
 	p := calm
 	p.Tick, p.Propose = 25, 4
-	if hold && pct(d.r, 70) {
+	givenUp := hold && pct(d.r, 70)
+	if givenUp {
 		// the transfer is given up after an election timeout; the order to take over is still under way
 		for k := 0; k < 7; k++ {
 			d.c.Do(Step{Act: "Tick", Node: l.ID})
@@ -1080,12 +1081,12 @@ func scTransfer(d *Driver) {
 		}
 	}
 	d.with(p, 20+d.r.Intn(60))
-	if n := d.c.up(l.ID); n != nil && pct(d.r, 70) {
+	if n := d.c.up(l.ID); n != nil && (givenUp || pct(d.r, 70)) {
 		d.propose(n, 1+d.r.Intn(2), false)
 		d.with(calm, 20+d.r.Intn(30))
 	}
 	d.heal()
-	if hold && pct(d.r, 60) {
+	if hold && (givenUp || pct(d.r, 60)) {
 		d.deliverSel(MsgSel{Type: "TimeoutNow", To: t}) // the delayed take-over order arrives first
 	}
 	p.Dup = 5
